@@ -27,6 +27,7 @@ import io
 import itertools
 
 from mc.engine import tree
+from mc.engine import implstate
 from mc.engine.harness import Partial, Report, merge_all
 from mc.engine.pool import run_shards, split
 from mc.gen import scenario as S
@@ -140,7 +141,7 @@ def abstract_state(hist, e1def):
 
 def reset_cache():
     import pybufrkit.tables as pt
-    pt.TableGroupCacheManager._TABLE_GROUP_CACHE = pt.TableGroupCache()
+    implstate.reset_table_cache()
 
 
 def scan(stream):
